@@ -372,7 +372,7 @@ func (u *Universe) BuildBatch(cs []*Container, tags string) error {
 	return nil
 }
 
-var stdAllowed = map[string]bool{"context": true, "errors": true, "fmt": true, "os": true, "reflect": true, "strconv": true, "math": true, "strings": true}
+var stdAllowed = map[string]bool{"context": true, "errors": true, "fmt": true, "os": true, "reflect": true, "strconv": true, "math": true, "strings": true, "bytes": true, "unicode/utf8": true}
 
 var reImportLine = regexp.MustCompile(`(?m)^\s*(?:[A-Za-z_][A-Za-z0-9_]*\s+)?"([^"]+)"\s*$`)
 
